@@ -139,6 +139,17 @@ int main(int argc, char **argv) {
         second_half(v, out);
         return out;
       }
+      if (t.size() >= 2 && t[0] == "seq") {
+        // a history: from_json on each text in turn, in this process and thread; one short observation per text
+        std::string out;
+        for (size_t i = 1; i < t.size(); ++i) {
+          std::string o;
+          try { Boxed_Value v = from_json(vf::unhex(t[i])); show(v, o); if (o.size() > 60) o = o.substr(0, 60) + "#" + std::to_string(o.size()); }
+          catch (...) { o = err_class(); }
+          out += (i > 1 ? " ; " : "") + o;
+        }
+        return out;
+      }
       if (t.size() == 2 && t[0] == "load") {
         try {
           auto j = json::JSON::Load(vf::unhex(t[1]));
